@@ -58,6 +58,10 @@ class NoHints:
         self.b = b
 class Empty:
     pass
+class InitHints:
+    def __init__(self, a: "int", b: "decimal.Decimal" = None):
+        self.a = a
+        self.b = b
 @dataclasses.dataclass
 class WithAny:
     a: typing.Any
@@ -70,7 +74,7 @@ EXT_NAMES = {
     "T_free": "T_free", "T_bound": "T_bound", "T_constr": "T_constr",
     "Callable": "typing.Callable[[int], str]", "CallableBare": "typing.Callable", "CallableEll": "typing.Callable[..., int]",
     "type[int]": "type[int]", "typing.Type": "typing.Type[int]", "Box": "Box", "Box[int]": "Box[int]", "Box[T]": "Box[T_free]",
-    "NoHints": "NoHints", "Empty": "Empty", "WithAny": "WithAny",
+    "NoHints": "NoHints", "Empty": "Empty", "WithAny": "WithAny", "InitHints": "InitHints",
 }
 COLL_SPELL = {
     ("list", "builtin"): "list[{a}]", ("list", "typing"): "typing.List[{a}]",
